@@ -173,8 +173,18 @@ pub fn vop(r: &mut Rng, vt: VT) -> VOp {
                     VOp::TryReserveLimited { n: 1 + small(r), exact: r.chance(1, 2), headroom: *r.pick(&[0usize, 0, 1, 64, 500, 5000]) }
                 }
             }
-            38 => VOp::ShrinkToFit,
-            39 => VOp::CloneCmp,
+            38 => {
+                if r.chance(1, 3) {
+                    VOp::RawPartsRoundTrip
+                } else {
+                    VOp::ShrinkToFit
+                }
+            }
+            39 => match r.below(4) {
+                0 => VOp::RawPush(tag),
+                1 => VOp::SetLenShrink(pos(r)),
+                _ => VOp::CloneCmp,
+            },
             40 => match r.below(8) {
                 0 | 1 => VOp::IntoIter(consume(r)),
                 2 => VOp::IntoBumpSlice { mutable: r.chance(1, 2) },
@@ -295,7 +305,13 @@ pub fn sop(r: &mut Rng) -> SOp {
         27 => SOp::Format(r.below(1000) as u32, text(r, 4)),
         28 => match r.below(4) {
             0 => SOp::IntoBumpStr,
-            1 => SOp::IntoBytesRoundTrip,
+            1 => {
+                if r.chance(1, 2) {
+                    SOp::IntoBytesRoundTrip
+                } else {
+                    SOp::UnsafeRoundTrip(r.below(3) as u8)
+                }
+            }
             _ => SOp::Recreate(sctor(r)),
         },
         29 => SOp::Reserve(Pos::A(small(r))),
